@@ -77,11 +77,10 @@ func foreign(raw json.RawMessage, resp *drv.Response) error {
 	resp.Note("hint_names", names)
 	resp.Note("foreign_sites", len(sites))
 	for _, st := range sites {
-		occs := st.Sample
-		if len(occs) > 3 {
-			occs = occs[:3]
-		}
-		for _, oc := range occs {
+		// every sampled occurrence until each family of moves has been applied at three of them (a move may apply to a fraction of
+		// the inputs only)
+		applied := map[string]int{}
+		for oi, oc := range st.Sample {
 			for ai := 0; ; ai++ {
 				var chosen *engine.Alternative
 				nalts := 0
@@ -90,9 +89,12 @@ func foreign(raw json.RawMessage, resp *drv.Response) error {
 					alts := engine.ForeignAlternatives(c)
 					nalts = len(alts)
 					if ai >= len(alts) {
-						return nil
+						panic(engine.LocalPass)
 					}
 					a := alts[ai]
+					if applied[strings.Split(a.Family, " ")[0]] >= 3 || (oi >= 3 && !strings.Contains(a.Family, "plus-r")) {
+						panic(engine.LocalPass) // nothing to play here: stop the run (chosen stays nil)
+					}
 					same := true
 					for i := range a.Out {
 						if new(big.Int).Mod(a.Out[i], engine.R).Cmp(c.Honest[i]) != 0 {
@@ -100,7 +102,7 @@ func foreign(raw json.RawMessage, resp *drv.Response) error {
 						}
 					}
 					if same {
-						return nil
+						panic(engine.LocalPass)
 					}
 					chosen = &a
 					c2.AbortAfterLocal = !a.Global
@@ -114,6 +116,7 @@ func foreign(raw json.RawMessage, resp *drv.Response) error {
 					}
 					continue
 				}
+				applied[strings.Split(chosen.Family, " ")[0]]++
 				resp.Count(fmt.Sprintf("foreign/%s/%d/%s/%d", st.Site, oc[0], chosen.Family, ai), false)
 				accepted := c2.LocalAccepted
 				if chosen.Global {
